@@ -857,3 +857,83 @@ func c09AtomMustPass(a RetAtom, ct *cut) bool {
 	}
 	return AtomMustPass(a, ct)
 }
+
+// ---------------------------------------------------------------- mutants
+
+var c09Mutants = []Mutant{
+	// R1.  The first applies once D1 is repaired (it re-introduces the shadowing); on the pinned tree its anchor text is absent and it is skipped.
+	{Name: "gcindex-subject-shadowed", File: "content/oci/oci.go",
+		Old:    "\t\t\tvar err error\n\t\t\tsubject, err = manifestutil.Subject(ctx, s.storage, *subject)",
+		New:    "\t\t\tsubject, err := manifestutil.Subject(ctx, s.storage, *subject)",
+		Expect: "C09.R1.loop-progress|(*~/content/oci.Store).gcIndex"},
+	{Name: "storage-delete-retry-never-retries", File: "content/oci/storage.go",
+		Old:    "\terr = os.Remove(targetPath)\n\tif err != nil {",
+		New:    "\tfor err = os.Remove(targetPath); errors.Is(err, fs.ErrExist); {\n\t}\n\tif err != nil {",
+		Expect: "C09.R1.loop-progress|(*~/content/oci.Storage).Delete"},
+	// R2
+	{Name: "untag-keeps-inverse-entry", File: "internal/resolver/memory.go", Old: "\ttagSet.Delete(reference)\n", New: "",
+		Expect: "C09.R2.inverse-tags|(*~/internal/resolver.Memory).Untag"},
+	{Name: "tag-without-inverse-entry", File: "internal/resolver/memory.go", Old: "\ttagSet.Add(reference)\n", New: "",
+		Expect: "C09.R2.inverse-tags|(*~/internal/resolver.Memory).Tag|index-update:inverse-added"},
+	{Name: "tag-stale-inverse-left", File: "internal/resolver/memory.go", Old: "\t\t\toldTagSet.Delete(reference)\n", New: "",
+		Expect: "C09.R2.inverse-tags|(*~/internal/resolver.Memory).Tag|index-update:stale-inverse-removed"},
+	// R3
+	{Name: "referrers-deleted-without-autogc", File: "content/oci/oci.go", Old: "if s.AutoGC && descriptor.IsManifest(head) {", New: "if descriptor.IsManifest(head) {",
+		Expect: "C09.R3.cascade-guards|(*~/content/oci.Store).Delete|referrers-only-under-AutoGC"},
+	{Name: "tagged-dangling-deleted", File: "content/oci/oci.go",
+		Old:    "\t\t\t\tif !s.isTagged(d) {\n\t\t\t\t\tdeleteQueue = append(deleteQueue, d)\n\t\t\t\t}",
+		New:    "\t\t\t\tdeleteQueue = append(deleteQueue, d)",
+		Expect: "C09.R3.cascade-guards|(*~/content/oci.Store).Delete|dangling-only-if-untagged"},
+	{Name: "dangling-deleted-without-autogc", File: "content/oci/oci.go",
+		Old:    "\t\tif s.AutoGC {\n\t\t\tfor _, d := range danglings {",
+		New:    "\t\t{\n\t\t\tfor _, d := range danglings {",
+		Expect: "C09.R3.cascade-guards|(*~/content/oci.Store).Delete|dangling-only-under-AutoGC"},
+	{Name: "untag-by-digest-only", File: "content/oci/oci.go", Old: "if content.Equal(desc, target) {", New: "if content.Equal(desc, target) || desc.Digest == target.Digest {",
+		Expect: "C09.R3.cascade-guards|(*~/content/oci.Store).delete|untag-only-equal-descriptors"},
+	{Name: "remove-reports-shared-successor", File: "internal/graph/memory.go",
+		Old:    "\t\tif len(predecessorEntry) == 0 {\n\t\t\tdelete(m.predecessors, successorKey)\n",
+		New:    "\t\t{\n\t\t\tif len(predecessorEntry) == 0 {\n\t\t\t\tdelete(m.predecessors, successorKey)\n\t\t\t}\n",
+		Expect: "C09.R3.cascade-guards|(*~/internal/graph.Memory).Remove|dangling-only-without-predecessors"},
+	{Name: "istagged-counts-self-reference", File: "content/oci/oci.go",
+		Old: "\tif tagSet.Contains(string(desc.Digest)) {\n\t\treturn len(tagSet) > 1\n\t}\n", New: "",
+		Expect: "C09.R3.cascade-guards|(*~/content/oci.Store).isTagged"},
+	{Name: "istagged-off-by-one", File: "content/oci/oci.go", Old: "\t\treturn len(tagSet) > 1\n", New: "\t\treturn len(tagSet) >= 1\n",
+		Expect: "C09.R3.cascade-guards|(*~/content/oci.Store).isTagged"},
+	// R4
+	{Name: "sweep-removes-reachable", File: "content/oci/oci.go", Old: "\t\t\tif !reachableNodes.Contains(blobDigest) {", New: "\t\t\tif !reachableNodes.Contains(blobDigest) || alg == \"sha512\" {",
+		Expect: "C09.R4.sweep-guard|(*~/content/oci.Store).GC|remove-only-unreachable"},
+	{Name: "reachable-set-before-reload", File: "content/oci/oci.go",
+		Old:    "\terr := s.gcIndex(ctx)\n\tif err != nil {\n\t\treturn fmt.Errorf(\"unable to reload index: %w\", err)\n\t}\n\treachableNodes := s.graph.DigestSet()\n",
+		New:    "\treachableNodes := s.graph.DigestSet()\n\terr := s.gcIndex(ctx)\n\tif err != nil {\n\t\treturn fmt.Errorf(\"unable to reload index: %w\", err)\n\t}\n",
+		Expect: "C09.R4.sweep-guard|(*~/content/oci.Store).GC|reachable-set-after-gcIndex"},
+	{Name: "sweep-ignores-gcindex-error", File: "content/oci/oci.go",
+		Old:    "\terr := s.gcIndex(ctx)\n\tif err != nil {\n\t\treturn fmt.Errorf(\"unable to reload index: %w\", err)\n\t}\n",
+		New:    "\terr := s.gcIndex(ctx)\n\tif err != nil && ctx.Err() != nil {\n\t\treturn fmt.Errorf(\"unable to reload index: %w\", err)\n\t}\n",
+		Expect: "C09.R4.sweep-guard|(*~/content/oci.Store).GC|reachable-set-after-gcIndex"},
+	{Name: "sweep-removes-invalid-names", File: "content/oci/oci.go",
+		Old: "\t\t\tif err := blobDigest.Validate(); err != nil {\n\t\t\t\t// skip irrelevant content\n\t\t\t\tcontinue\n\t\t\t}\n", New: "",
+		Expect: "C09.R4.sweep-guard|(*~/content/oci.Store).GC|remove-only-valid-digest-names"},
+	{Name: "sweep-enters-unknown-dirs", File: "content/oci/oci.go",
+		Old: "\t\tif !isKnownAlgorithm(alg) {\n\t\t\tcontinue\n\t\t}\n", New: "",
+		Expect: "C09.R4.sweep-guard|(*~/content/oci.Store).GC|remove-only-in-known-algorithm-dirs"},
+	{Name: "gcindex-tagged-not-reindexed", File: "content/oci/oci.go",
+		Old:    "\t\tplain := descriptor.Plain(desc)\n\t\tif err := graph.IndexAll(ctx, s.storage, plain); err != nil {\n\t\t\treturn err\n\t\t}\n\t\ttagged.Add(desc.Digest)",
+		New:    "\t\ttagged.Add(desc.Digest)",
+		Expect: "C09.R4.sweep-guard|(*~/content/oci.Store).gcIndex|pass1-keeps-tagged-entries:index-all"},
+	{Name: "gcindex-keeps-unrooted-referrers", File: "content/oci/oci.go",
+		Old: "\t\t\tif graph.Exists(*subject) {", New: "\t\t\tif graph.Exists(*subject) || ref != \"\" {",
+		Expect: "C09.R4.sweep-guard|(*~/content/oci.Store).gcIndex|pass2-keeps-only-referrers-of-kept-nodes"},
+	// R5
+	{Name: "gc-under-read-lock", File: "content/oci/oci.go",
+		Old:    "\ts.sync.Lock()\n\tdefer s.sync.Unlock()\n\n\t// get reachable nodes by reloading the index",
+		New:    "\ts.sync.RLock()\n\tdefer s.sync.RUnlock()\n\n\t// get reachable nodes by reloading the index",
+		Expect: "C09.R5.exclusive|(*~/content/oci.Store).GC"},
+	{Name: "delete-under-read-lock", File: "content/oci/oci.go",
+		Old:    "\ts.sync.Lock()\n\tdefer s.sync.Unlock()\n\n\tdeleteQueue",
+		New:    "\ts.sync.RLock()\n\tdefer s.sync.RUnlock()\n\n\tdeleteQueue",
+		Expect: "C09.R5.exclusive|(*~/content/oci.Store).Delete"},
+	{Name: "delete-unlocks-early", File: "content/oci/oci.go",
+		Old:    "\t\tdanglings, err := s.delete(ctx, head)\n",
+		New:    "\t\ts.sync.Unlock()\n\t\tdanglings, err := s.delete(ctx, head)\n\t\ts.sync.Lock()\n",
+		Expect: "C09.R5.exclusive|(*~/content/oci.Store).Delete"},
+}
